@@ -1136,6 +1136,10 @@ def oracle_session(sess, observe=None):
         garr = np.asarray(out.electric_field)
         wfs += [wf, out]
         calls.append('f1' if case['stokes'] is not None else 'f0')
+        sv_out = out.input_stokes_vector
+        if sv_out is not None and (np.shares_memory(sv_out, wf.input_stokes_vector) or any(
+                k[0].input_stokes_vector is not None and np.shares_memory(sv_out, k[0].input_stokes_vector) for k in kept)):
+            bad.append(('result-aliases-stokes-vector', 'the Stokes vector of the returned wavefront is the same ndarray as that of its input or of an earlier result (history %s)' % prev))
         bad += results_still_valid(kept, 'after %s (history %s)' % (op['op'], prev))
         bad += result_is_independent(prop, pupil_grid, lam, garr, np.asarray(wf.electric_field), kept, prev)
         kept.append((out, garr.copy(), '%s #%d' % (op['op'], len(kept))))
